@@ -4,7 +4,7 @@
 import json, os, re, subprocess, sys
 
 def sh(cmd, **kw):
-    return subprocess.run(cmd, shell=True, capture_output=True, text=True, **kw)
+    return subprocess.run(cmd, shell=True, capture_output=True, text=True, errors="replace", **kw)
 
 root = "/verif/seeded"
 ids = sys.argv[1:]
